@@ -303,6 +303,50 @@ func dFormatterSetParams() string {
 	return ""
 }
 
+// dModesAgreeOnNames: a fully populated struct whose exported field names start with upper-case letters outside ASCII (written the same
+// way in the schema) and one field keyed by the empty string (`zog:""`): Validate of the value and Parse of the map it would be decoded
+// from report the same issues and leave equal values.
+type dIntl struct {
+	Ñame  string
+	Émail string
+	Дата  int
+	Text  string `zog:""`
+}
+
+func dModesAgreeOnNames() (problem string) {
+	defer func() {
+		if r := recover(); r != nil {
+			problem = fmt.Sprint("panic: ", r)
+		}
+	}()
+	mk := func() *z.StructSchema {
+		return z.Struct(z.Schema{"Ñame": z.String().Min(5), "Émail": z.String().Email(), "Дата": z.Int().GT(10), "text": z.String().Min(5)})
+	}
+	render := func(m z.ZogIssueMap) string {
+		var out []string
+		for k, l := range m {
+			if k == "$first" {
+				continue
+			}
+			for _, e := range l {
+				out = append(out, fmt.Sprintf("%s|%s|%s|%s|%s", k, e.Path, e.Code, e.Dtype, e.Message))
+			}
+		}
+		sortStrings(out)
+		return strings.Join(out, "; ")
+	}
+	for _, val := range []dIntl{{Ñame: "abc", Émail: "nope", Дата: 5, Text: "tx"}, {Ñame: "abcdef", Émail: "a@b.co", Дата: 50, Text: "long text"}} {
+		v := val
+		iv := render(mk().Validate(&v))
+		var d dIntl
+		ip := render(mk().Parse(map[string]any{"Ñame": val.Ñame, "Émail": val.Émail, "Дата": val.Дата, "": val.Text}, &d))
+		if iv != ip || d != v {
+			return fmt.Sprintf("value %+v: Validate reports [%s] and leaves %+v; Parse of the same data reports [%s] and leaves %+v", val, iv, v, ip, d)
+		}
+	}
+	return ""
+}
+
 func dKeys(m z.ZogIssueMap) string {
 	var ks []string
 	for k := range m {
